@@ -118,6 +118,18 @@ impl<'t> FieldTypeAndInstantiationsBuilder<'t, '_> {
 				}
 			}
 			Some(namespace) => {
+				if let FieldKind::StructField {
+					struct_name: _,
+					field_name,
+				} = field_kind
+				{
+					// Same as without explicit namespace: `type_name` is the name of the
+					// struct as computed at runtime, which (unlike what we know here)
+					// accounts for generic parameters, so that two instantiations of a
+					// generic struct don't define the same name twice.
+					let pattern = format!(r#"{{}}.{}"#, field_name.unraw());
+					return quote! { format!(#pattern, type_name) };
+				}
 				let namespace_prefix = if namespace.is_empty() {
 					"".to_owned()
 				} else {
